@@ -26,6 +26,9 @@ struct Params {
     /// every other message (i + j odd) has no body at all and is a method call with the
     /// no-reply flag instead of a signal: the smallest messages the connection sends
     bodyless_mix: bool,
+    /// the writing task yields once after every accepted (also partial) write: other senders get
+    /// to run between two `sendmsg` calls of one message
+    yield_after_write: bool,
 }
 
 fn scenario(p: Params) -> ExecResult {
@@ -47,7 +50,8 @@ fn scenario(p: Params) -> ExecResult {
     link.a2b.with(|c| {
         c.write_mode = WriteMode::Choice {
             pending_budget: p.pending_budget,
-        }
+        };
+        c.yield_after_write = p.yield_after_write;
     });
     // messages: sender i sends per_sender messages, distinguishable by member name and body size
     let fd = new_fd("c18");
@@ -227,6 +231,7 @@ fn params_from(j: &serde_json::Value) -> Params {
         pending_budget: j["pending_budget"].as_u64().unwrap_or(1) as usize,
         api: j["api"].as_bool().unwrap_or(false),
         bodyless_mix: j["bodyless_mix"].as_bool().unwrap_or(false),
+        yield_after_write: j["yield_after_write"].as_bool().unwrap_or(false),
     }
 }
 
@@ -243,27 +248,32 @@ pub fn main(args: &Args) -> i32 {
     let scenarios: Vec<(&str, Params, Vec<Option<usize>>)> = vec![
         (
             "2x1",
-            Params { senders: 2, per_sender: 1, fd_sender: None, pending_budget: 1, api: false, bodyless_mix: false },
+            Params { senders: 2, per_sender: 1, fd_sender: None, pending_budget: 1, api: false, bodyless_mix: false, yield_after_write: false },
             if quick { vec![Some(8)] } else { vec![Some(10), Some(11)] },
         ),
         (
             "2x2",
-            Params { senders: 2, per_sender: 2, fd_sender: Some(1), pending_budget: 2, api: false, bodyless_mix: false },
+            Params { senders: 2, per_sender: 2, fd_sender: Some(1), pending_budget: 2, api: false, bodyless_mix: false, yield_after_write: false },
             if quick { vec![Some(6)] } else { vec![Some(8), Some(9)] },
         ),
         (
             "3x1-fd",
-            Params { senders: 3, per_sender: 1, fd_sender: Some(0), pending_budget: 2, api: false, bodyless_mix: false },
+            Params { senders: 3, per_sender: 1, fd_sender: Some(0), pending_budget: 2, api: false, bodyless_mix: false, yield_after_write: false },
             if quick { vec![Some(6)] } else { vec![Some(8), Some(9)] },
         ),
         (
             "2x2-bodyless-mix",
-            Params { senders: 2, per_sender: 2, fd_sender: Some(0), pending_budget: 2, api: false, bodyless_mix: true },
+            Params { senders: 2, per_sender: 2, fd_sender: Some(0), pending_budget: 2, api: false, bodyless_mix: true, yield_after_write: false },
             if quick { vec![Some(6)] } else { vec![Some(8), Some(9)] },
         ),
         (
+            "2x1-yield-after-each-write",
+            Params { senders: 2, per_sender: 1, fd_sender: Some(0), pending_budget: 0, api: false, bodyless_mix: false, yield_after_write: true },
+            if quick { vec![Some(3)] } else { vec![Some(5), Some(6)] },
+        ),
+        (
             "2x2-api",
-            Params { senders: 2, per_sender: 2, fd_sender: None, pending_budget: 2, api: true, bodyless_mix: false },
+            Params { senders: 2, per_sender: 2, fd_sender: None, pending_budget: 2, api: true, bodyless_mix: false, yield_after_write: false },
             if quick { vec![Some(6)] } else { vec![Some(8)] },
         ),
     ];
@@ -277,7 +287,7 @@ pub fn main(args: &Args) -> i32 {
             &report,
             &totals,
             name,
-            json!({"senders": p.senders, "per_sender": p.per_sender, "fd_sender": p.fd_sender, "pending_budget": p.pending_budget, "api": p.api, "bodyless_mix": p.bodyless_mix}),
+            json!({"senders": p.senders, "per_sender": p.per_sender, "fd_sender": p.fd_sender, "pending_budget": p.pending_budget, "api": p.api, "bodyless_mix": p.bodyless_mix, "yield_after_write": p.yield_after_write}),
             &plan,
             move || scenario(p),
         );
